@@ -11,7 +11,8 @@ OBLIGATIONS = ["pt_check_sound", "pt_valid_ancestral", "pt_valid_order", "pt_val
                "pt_valid_wf", "pt_valid_scope_chain", "pt_constraints_exact",
                "pt_nodes_partial", "pt_links_partial",
                "build_valid", "build_no_fuel_exhaustion", "pt_nodes", "pt_links_converse",
-               "pt_acyclic", "pt_edges_ancestral", "pt_roots", "wf_graphb_sound", "build_needs_wf_refuted"]
+               "pt_acyclic", "pt_edges_ancestral", "pt_roots", "wf_graphb_sound", "build_needs_wf_refuted",
+               "build_parent_shares_constraint", "build_pp_shares_constraint"]
 N_QUICK, N_THOROUGH = 500, 5000
 PARALLEL = 8
 SHARD = 80
